@@ -104,12 +104,17 @@ def run(chk):
         spec = {"a": ("input", []), "b": ("input", []), "g": ("or", ["a", "b"]), helper: ("not", ["b"]), "h": ("nand", ["g", helper, "a"])}
         name_models.append((f"net-named-{helper}", build(spec, outputs=["h"])))
     fams = const_models + name_models + wide_models + list(one_gate_circuits(max_arity=3)) + list(deep_circuits()) + list(two_level_circuits(limit=80 if chk.tier == "quick" else None))
+    from ..corpus import corpus
+
+    fams += [(f"corpus::{k}", c) for k, tags, c in corpus(chk.tier, exclude=("x",)) if len(c.inputs()) <= (4 if chk.tier == "quick" else 5)]
     n = 0
     for kname, c in fams:
         snap = c._snapshot()
         r = P.call(FILE, "ternary", c)
         n += 1
         key = f"ternary::{kname}"
+        if r[0] == "raise" and r[1] == "ValueError" and "::name::" in kname:
+            continue  # a clash with a helper-style name that is rejected loudly is not a wrong result
         if r[0] != "return" or not isinstance(r[1], tuple) or len(r[1]) != 2:
             chk.ob("C10.K.kleene", key, False, file=FILE, func="ternary", line=fi.node.lineno, fact={"result": str(r)[:200]})
             continue
